@@ -39,7 +39,25 @@ fn judge(case: &QCase, obs: &QObs, clo: &Closure) -> Verdict {
     let (provable, solutions) = match &obs.outcome {
         Outcome::Answer { provable, solutions } => (*provable, *solutions),
         Outcome::Error(e) => return Verdict::NoVerdict(format!("Err: {}", e)),
-        Outcome::Panic(p) => return Verdict::NoVerdict(format!("panic: {}", p)),
+        Outcome::Panic(p) => {
+            // a query that panics has not reported the goal provable: where bounded completeness
+            // demands "provable" (DFS, one solution, a definite derivation within the depth bound)
+            // the panic breaks that clause; everywhere else it is no verdict
+            if case.cfg.strat == Strat::Dfs && case.cfg.max_solutions == 1 && !case.cfg.memo && !clo.undefined_seen {
+                if let Some(h) = definite_height(&case.kb, &case.facts, &case.goal, clo) {
+                    if h <= case.cfg.max_depth {
+                        return Verdict::Violation {
+                            clause: K,
+                            detail: format!(
+                                "query `{}` (dfs, max_depth {}) PANICKED ({}) although a derivation of height {} exists through conjunctive rules over single-valued fields, from the initial facts {}",
+                                case.goal.text(), case.cfg.max_depth, p, h, show_facts(&obs.before)
+                            ),
+                        };
+                    }
+                }
+            }
+            return Verdict::NoVerdict(format!("panic: {}", p));
+        }
     };
     if provable {
         match eval_goal_on(&obs.after, &case.goal) {
@@ -99,6 +117,9 @@ fn cause(case: &QCase, obs: &QObs, clause: &str) -> &'static str {
         Outcome::Answer { solutions, .. } => *solutions,
         _ => 0,
     };
+    if clause == K && matches!(obs.outcome, Outcome::Panic(_)) {
+        return "query-panicked-instead-of-answering";
+    }
     if clause == K {
         // the engine finds the operator of a goal pattern with `str::find` over the whole text,
         // trying `>=` and `<=` before `==`: a token inside the quoted literal is taken for the
@@ -448,14 +469,14 @@ impl Check for C09 {
         "C09"
     }
     fn rule(&self) -> String {
-        "random: Horn-style KBs of 1..=8 rules generated as GRL text (parsed by the real parser; the parsed rules must equal the generator's AST or the KB is skipped) over 8 typed fields (4 flat, 4 dotted `T.x`/`U.x`; bool/string/int literals; conditions And/Or to depth 2): an intended chain of depth 1..=6 plus distractors (wrong-value conclusions, dead ends, 2- and 3-cycles, alternative routes, parents with two sub-goals, arbitrary rules), 14 queries per KB (ordering goals on integers are also asked with the literal in exponent notation, `0.5e1` for 5): initial facts with/without the chain root and side facts (flat or nested objects), atomic goals `field op literal` over the six comparison operators aimed at / away from the chain, max_depth 0..=6, strategies dfs/bfs/iterative 6:2:2, max_solutions 1 (5/6) or 3 (1/6), memoisation off. Integer ==/!= atoms (1/6), string predicates (1/5), positive saliences (1/3), nested facts (1/6), a string value containing an operator token such as `a>=b` as fact and goal literal (1/30), one fact of the wrong type (1/40, oracle Undefined) are each on in a minority of KBs. A case with two or more top-level candidate rules is run 3x (candidate order comes from a HashSet). exhaustive: every ordered triple from a fixed pool of bool rules (8 quick / 12 thorough; chains, cycles, And, Or, wrong-value, `!=`) x 12 goals x max_depth (0,1,2,6 quick / 0..=6 thorough) x strategy (dfs quick / all three thorough) x initial facts ({A}, {} thorough). A case is non-trivial when the reference closure derives at least one fact that is not initial AND the engine has at least one candidate rule for the goal AND the engine answered; distinct by structural hash of (rules, facts, goal, config). thorough additionally runs a Miri workload on the BFS strategy (direct Goal trees with sub-goals through the raw-pointer queue, and BFS queries).".into()
+        "random: Horn-style KBs of 1..=8 rules generated as GRL text (parsed by the real parser; the parsed rules must equal the generator's AST or the KB is skipped) over 8 typed fields (4 flat, 4 dotted `T.x`/`U.x`; bool/string/int literals; conditions And/Or to depth 2): an intended chain of depth 1..=6 plus distractors (wrong-value conclusions, dead ends, 2- and 3-cycles, alternative routes, parents with two sub-goals, arbitrary rules), 14 queries per KB (ordering goals on integers are also asked with the literal in exponent notation, `0.5e1` for 5): initial facts with/without the chain root and side facts (flat or nested objects), atomic goals `field op literal` over the six comparison operators aimed at / away from the chain, max_depth 0..=6, strategies dfs/bfs/iterative 6:2:2, max_solutions 1 (5/6) or 3 (1/6), memoisation off. Integer ==/!= atoms (1/6), string predicates (1/5), positive saliences (1/3), nested facts (1/6), a string value containing, or ending in, an operator token (`a>=b`, `a>=`, `<=`) as fact and goal literal (1/30), one fact of the wrong type (1/40, oracle Undefined) are each on in a minority of KBs. A case with two or more top-level candidate rules is run 3x (candidate order comes from a HashSet). exhaustive: every ordered triple from a fixed pool of bool rules (8 quick / 12 thorough; chains, cycles, And, Or, wrong-value, `!=`) x 12 goals x max_depth (0,1,2,6 quick / 0..=6 thorough) x strategy (dfs quick / all three thorough) x initial facts ({A}, {} thorough). A case is non-trivial when the reference closure derives at least one fact that is not initial AND the engine has at least one candidate rule for the goal AND the engine answered; distinct by structural hash of (rules, facts, goal, config). thorough additionally runs a Miri workload on the BFS strategy (direct Goal trees with sub-goals through the raw-pointer queue, and BFS queries).".into()
     }
     fn assumptions(&self) -> Vec<String> {
         vec![
             "height of a derivation: initial facts 0, one rule application +1; a goal already true in the facts has height 0".into(),
             "K is only judged when every field the derivation reads is single-valued in the multi-valued closure (a `!=` atom additionally needs a field whose presence never changes), DFS, max_solutions = 1".into(),
             "cross-type comparisons, and a dotted path present both nested and flat with different values, are Undefined: skipped and counted".into(),
-            "Err and panics of query() are 'no verdict' for this property (counted)".into(),
+            "Err of query() is 'no verdict' (counted); a panic is 'no verdict' for the soundness clauses and a violation of bounded completeness where that clause applies (a query that panics has not reported a derivable goal provable)".into(),
             "the engine's answer may depend on HashSet iteration order of the conclusion index; a violation seen in any run of a case is a violation (replay runs a case up to 24 times)".into(),
         ]
     }
